@@ -31,18 +31,23 @@ P == CASE Profile = "c04q" ->
              stmts |-> {"qh", "ah", "qg", "ag", "defX", "mq", "ma", "undefM", "inch"}, maxmain |-> 2, nmains |-> 1,
              idirs |-> {<<Iu("inc"), Is("sys")>>, <<Iu("inc")>>, <<Is("sys"), Iu("inc")>>, <<Iu("sys"), Iu("inc")>>, <<>>},
              forced |-> {<<>>, <<"g.h">>}, nents |-> 1, plats |-> <<"p1">>]
+      [] Profile = "c04h" ->
+            \* computed includes whose operand comes from the command line: two TUs of ONE platform
+            [slots |-> <<<<"inc", "h.h">>, <<"inc", "g.h">>, <<"src", "h.h">>>>,
+             bodies |-> {"def", "guard"}, stmts |-> {"inch", "mq", "qg"}, maxmain |-> 2, nmains |-> 1,
+             idirs |-> {<<Iu("inc")>>}, forced |-> {<<>>}, nents |-> 2, plats |-> <<"p1">>]
       [] Profile = "sim" ->
             [slots |-> <<<<"src", "h.h">>, <<"inc", "h.h">>, <<"sys", "h.h">>, <<"ext", "h.h">>,
                          <<"src", "g.h">>, <<"inc", "g.h">>, <<"ext", "g.h">>>>,
-             bodies |-> {"plain", "def", "guard", "once", "testX", "undefX", "defX", "incq", "inca", "gincq"},
-             stmts |-> {"qh", "ah", "qg", "ag", "defX", "undefX", "testX", "mq", "ma", "dead", "undefM", "inch"},
+             bodies |-> {"plain", "def", "guard", "once", "testX", "undefX", "defX", "incq", "inca", "gincq", "indX"},
+             stmts |-> {"qh", "ah", "qg", "ag", "defX", "undefX", "testX", "mq", "ma", "dead", "undefM", "inch", "indX"},
              maxmain |-> 4, nmains |-> 2,
              idirs |-> {<<Iu("inc"), Is("sys")>>, <<Iu("inc")>>, <<Is("sys"), Iu("inc")>>, <<Iu("sys"), Iu("inc")>>, <<>>,
                         <<Iu("ext"), Iu("inc")>>, <<Iu("inc"), Iu("ext"), Is("sys")>>, <<Iu("src"), Iu("inc")>>, <<Iu("inc"), Iu("src")>>},
              forced |-> {<<>>, <<"g.h">>}, nents |-> 3, plats |-> <<"p1", "p2">>]
       [] Profile = "c08q" ->
             [slots |-> <<<<"inc", "h.h">>, <<"inc", "g.h">>>>,
-             bodies |-> {"once", "guard", "testX", "defX", "undefX"}, stmts |-> {"qh", "qg", "testX", "defX", "inch"},
+             bodies |-> {"once", "guard", "testX", "defX", "undefX", "indX"}, stmts |-> {"qh", "qg", "testX", "defX", "inch", "indX"},
              maxmain |-> 2, nmains |-> 2, idirs |-> {<<Iu("inc")>>}, forced |-> {<<>>}, nents |-> 2, plats |-> <<"p1", "p2">>]
       [] Profile = "c08m" ->
             [slots |-> <<<<"inc", "h.h">>, <<"inc", "g.h">>>>,
@@ -77,7 +82,7 @@ GhostChoices == IF Profile = "c18" THEN {FALSE, TRUE} ELSE {FALSE}
 \* -DHDR=<header name>: the operand of a computed include may come from the command line, so the same
 \* `#include HDR` directive means different files in different translation units
 HdrChoices == CASE Profile = "c18" -> {"U", "q:h.h", "a:g.h", "q:nope.h"}
-                [] Profile \in {"sim", "c04t", "c08q"} -> {"U", "q:h.h", "a:g.h", "q:g.h"}
+                [] Profile \in {"sim", "c04t", "c08q", "c04h"} -> {"U", "q:h.h", "a:g.h", "q:g.h"}
                 [] OTHER -> {"U"}
 
 Slots == P.slots
@@ -95,7 +100,7 @@ Dirs == {"src", "inc", "sys", "ext", "bld"}
 Mk(d) == "M_" \o d
 G(n) == IF n = "h.h" THEN "G_h" ELSE "G_g"
 Other(n) == IF n = "h.h" THEN "g.h" ELSE "h.h"
-Macros == {Mk(d) : d \in Dirs} \cup {"G_h", "G_g", "X", "HDR"}
+Macros == {Mk(d) : d \in Dirs} \cup {"G_h", "G_g", "X", "HDR", "Y"}
 
 Def(m, v) == [k |-> "define", m |-> m, v |-> v]
 If(c) == [k |-> "if", c |-> c]
@@ -119,6 +124,7 @@ Body(b, d, n) ==
     [] b = "gincq"  -> <<IfNdef(G(n)), Def(G(n), ""), Inc("q", Other(n)), C, Endif>>
     [] b = "miss"   -> <<C, Inc("q", "nope.h"), Inc("a", "nope.h"), C>>
     [] b = "unk"    -> <<[k |-> "unknown"], C>>
+    [] b = "indX"   -> <<IfNdef("Y"), Def("Y", "m:X"), Endif, If([t |-> "val", m |-> "Y"]), C, Else, C, Endif>>
 
 \* ---- main-file statements ----------------------------------------------------------------
 Stmt(s) ==
@@ -135,6 +141,8 @@ Stmt(s) ==
     [] s = "missq" -> <<Inc("q", "nope.h"), C>>
     [] s = "missa" -> <<Inc("a", "nope.h"), C>>
     [] s = "unk" -> <<[k |-> "unknown"], C>>
+    \* a condition that names Y, whose value is the identifier X: the outcome depends on X only indirectly
+    [] s = "indX" -> <<Def("Y", "m:X"), If([t |-> "val", m |-> "Y"]), C, Else, C, Endif, [k |-> "undef", m |-> "Y"]>>
     [] s = "inch" -> <<IfDef("HDR"), [k |-> "includem", m |-> "HDR"], Endif, C>>
     [] s = "undefM" -> <<[k |-> "undef", m |-> "M_inc"], [k |-> "undef", m |-> "M_src"], C>>
 
